@@ -49,6 +49,7 @@ def okB (s : St) : Op → Bool
   | .replaceList os => decide os.Nodup
   | .replaceDict kvs => decide ((Dict.updateAll [] kvs).map (·.2)).Nodup
   | .assign _ => true       -- the property makes no exception for value assignments (`Op.okFull`)
+  | .inherited => true
 
 /-- the views of one observation agree (theorem `views_agree`) -/
 def viewsOk (o : Obs) (c : Bool) (univ : List Obj) : Option String :=
@@ -70,6 +71,7 @@ def payloadCovered : Op → Bool
 def callOk (prev cur : Obs) (c : Bool) (op : Op) : Option String :=
   let mutator := match op with
     | .assign _ => false
+    | .inherited => false       -- acts on the throw-away proxy: not a mutation of the Parameter
     | .popKeyD k _ => (Dict.get? prev.names k).isSome     -- a missing key: the default is returned, nothing changes
     | _ => true
   if !cur.chg then
